@@ -1431,12 +1431,7 @@ func (w *World) returnedValues(fn *ssa.Function, idx int, eval func(ssa.Value) (
 		case *ssa.Return:
 			if idx < len(t.Results) {
 				curRet = b
-				curOrig = retResult(t, idx)
-				if ph, isPhi := curOrig.(*ssa.Phi); isPhi {
-					if nv, ok := st.phi[ph]; ok {
-						curOrig = nv
-					}
-				}
+				curOrig = retResult(t, idx) // as written (a merge of sibling results is tested as the merge)
 				add(w.resolveValue(retResult(t, idx), st, eval, depth))
 			}
 		case *ssa.If:
